@@ -17,6 +17,8 @@ def run(R):
     if not R.build():
         return
     R.lean(["C06", "C06Run"])
+    import hunted
+    hunted.run(R, "C06")
     quick = R.tier == "quick"
     rng = R.rng
     reqs, meta = [], {}
